@@ -1,5 +1,6 @@
 import Zc.Proofs.Wire.Message
 import Zc.Proofs.Wire.Total
+import Zc.Proofs.Wire.Reject
 import Zc.Props.C02
 import Zc.Proofs.NameTextWF
 /-! # C01 — wire codec round trip
@@ -188,20 +189,192 @@ theorem C01_roundtrip_total (m : Msg) (hwf : WFMsg m) (hfit : FitAll m) (hf : m.
   exact ⟨pks, msgs, h, h1, h2, h3, h4, h5⟩
 
 /-- **Rejection.**  A name with a label of more than 63 bytes makes `write_name` raise
-`NamePartTooLongException` — nothing else, and nothing is written — for every names table the builder
-can hold (keys no longer than the name have short labels only: the builder registers suffixes of names it
-has started to write, longest first).  A question with such a name is rejected likewise.
-(The statement for a whole message — "`packets m` is `NamePartTooLongException` iff some label is too
-long" — is not proved: it needs progress of the packet loop up to the offending entry; the differential
-covers it, `harness/c01.py` signature `…:label-…-encodes-undecodable`.) -/
+`NamePartTooLongException` — nothing else, and nothing is written — for every names table whose keys no
+longer than the name have short labels only (hypothesis `hnames`; that every table the builder can hold
+satisfies it is `ShortKeys`, an invariant proved below: `C01_table_short_keys`, `C01_reach_*`).
+Records, every reachable state and whole messages follow: `C01_record_rejected`, `C01_question_rejected_reachable`,
+`C01_message_rejected`, `C01_rejected_iff_partial`. -/
 theorem C01_name_rejected (n : WName) (size : Nat) (names : Names) (hbad : ∃ l ∈ n, 63 < l.length)
     (hnames : ∀ p ∈ names, p.1.length ≤ n.length → ∀ l ∈ p.1, l.length ≤ 63) :
     writeName size names n = .error .namePartTooLong :=
   writeName_rejects n size names hbad hnames
 
+/-- the first question of a datagram (empty names table, offset 12) -/
 theorem C01_question_rejected (mc : Bool) (q : EQuestion) (hbad : ∃ l ∈ q.name, 63 < l.length) :
     encQuestion mc 12 [] q = .error .namePartTooLong :=
   encQuestion_rejects mc 12 [] q hbad (by intro p hp; simp at hp)
+
+/-! #### … from every state the builder can be in
+
+`C01_name_rejected` asks that the table's keys no longer than the name have short labels; `C01_question_rejected` is
+the first question of a datagram.  What closes the gap is the invariant `ShortKeys` ("every key of the names table has
+labels of at most 63 bytes only") of `Reach` ("what is true of the packet under construction while `packets()` has not
+raised": size ≤ 8966, table offsets < 16384, `ShortKeys`): it holds of the fresh packet and is preserved by every
+question / record the builder writes or rolls back (`C01_reach_*`), and from every such state a question **or record**
+with an over-long label — in the owner name or in the name its rdata carries — raises `NamePartTooLongException`. -/
+
+theorem C01_reach_fresh : Reach St.fresh := Reach.fresh
+
+/-- whatever a question does to the packet under construction (written, or rolled back), `Reach` is kept -/
+theorem C01_reach_question (mc : Bool) (st st' : St) (q : EQuestion) (ok : Bool) (hr : Reach st) (hq : Zc.Survive.QSafe q)
+    (hw : writeQuestion mc st q = .ok (st', ok)) : Reach st' := by
+  obtain ⟨st1, ok1, h1, hr1, _⟩ := (stepOK_question mc).good st q hr hq
+  rw [h1] at hw
+  cases hw
+  exact hr1
+
+/-- the same for a record -/
+theorem C01_reach_record (mc : Bool) (st st' : St) (r : ERecord) (now : Ms) (ok : Bool) (hr : Reach st)
+    (hs : Zc.Survive.RecSafe r now) (hw : writeRecord mc st r now = .ok (st', ok)) : Reach st' := by
+  obtain ⟨st1, ok1, h1, hr1, _⟩ := (stepOK_record mc).good st (r, now) hr hs
+  rw [h1] at hw
+  cases hw
+  exact hr1
+
+/-- the invariant needs no hypothesis on the entry when the write returns at all: a names table with short keys only
+keeps short keys only (an over-long label makes the write raise, it never gets registered and survive) -/
+theorem C01_table_short_keys (mc : Bool) (st st' : St) (r : ERecord) (now : Ms) (ok : Bool) (hk : ShortKeys st.names)
+    (hw : writeRecord mc st r now = .ok (st', ok)) : ShortKeys st'.names :=
+  writeRecord_shortKeys mc st st' r now ok hk hw
+
+/-- **a question with an over-long label is rejected from every reachable state** (any offset, any table) -/
+theorem C01_question_rejected_reachable (mc : Bool) (st : St) (q : EQuestion) (hr : Reach st) (hbad : HasLong q.name) :
+    writeQuestion mc st q = .error .namePartTooLong :=
+  writeQuestion_rejects mc st q hr hbad
+
+/-- **a record with an over-long label is rejected from every reachable state**: `RecLong` = the owner name has a
+label of more than 63 bytes, or (owner name, type, class, TTL being in range, so that the builder gets that far) the
+PTR/CNAME target, SRV target or NSEC next name has one.  `NamePartTooLongException` and nothing else is raised. -/
+theorem C01_record_rejected (mc : Bool) (st : St) (r : ERecord) (now : Ms) (hr : Reach st) (hbad : RecLong r now) :
+    writeRecord mc st r now = .error .namePartTooLong :=
+  writeRecord_rejects mc st r now hr hbad
+
+/-- … and from every names table with short keys at every offset a datagram can have (the statement on `encRecord`) -/
+theorem C01_record_rejected_table (mc : Bool) (size : Nat) (names : Names) (r : ERecord) (now : Ms) (hbad : RecLong r now)
+    (hs : Zc.Survive.NamesSmall names) (hk : ShortKeys names) (hsz : size ≤ 8966) :
+    encRecord mc size names r now = .error .namePartTooLong :=
+  encRecord_rejects mc size names r now hbad hs hk hsz
+
+/-! #### … and the whole message
+
+`MsgMixed m`: every entry is either acceptable to the encoder (`QSafe` / `RecSafe`: labels ≤ 63 bytes, names ≤ 1100
+octets, 16-bit / 32-bit fields in range, char-strings ≤ 255, NSEC types well formed — wider than `WFMsg`, in particular
+**not** narrowed by D21) or has an over-long label (`HasLong` / `RecLong`); `FitAll m`: every acceptable entry alone
+fits 8966 bytes (an entry that does not is outside the property's quantifier; placed in front of the offending entry in
+the same section it ends the loop — "no progress" — before the offending entry is tried: `C01_rejected_iff_refuted`). -/
+
+/-- the message-level dichotomy at full strength, without the `FitAll` proviso -/
+def C01_rejected_iff : Prop :=
+  ∀ m : Msg, MsgMixed m → (packets m = .error .namePartTooLong ↔ HasLongEntry m)
+
+/-- **a message with an over-long label is rejected** with `NamePartTooLongException` -/
+theorem C01_message_rejected (m : Msg) (hm : MsgMixed m) (hfit : FitAll m) (hbad : HasLongEntry m) :
+    packets m = .error .namePartTooLong :=
+  packets_rejects m hm hfit hbad
+
+theorem msgSafe_of_mixed (m : Msg) (hm : MsgMixed m) (hno : ¬ HasLongEntry m) : Zc.Survive.MsgSafe m := by
+  simp only [HasLongEntry, LongRemains, List.drop_zero, not_or, not_exists, not_and] at hno
+  obtain ⟨n1, n2, n3, n4⟩ := hno
+  exact ⟨hm.flags, hm.id,
+    fun q hq => (hm.questions q hq).resolve_right (n1 q hq),
+    fun x hx => (hm.answers x hx).resolve_right (n2 x hx),
+    fun r hr => (hm.authorities r hr).resolve_right (n3 r hr),
+    fun r hr => (hm.additionals r hr).resolve_right (n4 r hr)⟩
+
+/-- **the dichotomy, message level** (`C01_rejected_iff` under `FitAll`): the builder raises
+`NamePartTooLongException` exactly when some entry has an over-long label, and returns datagrams otherwise — no other
+exception, no third outcome.  (For the datagrams returned, `C01_roundtrip_strict` is the round trip.) -/
+theorem C01_rejected_iff_partial (m : Msg) (hm : MsgMixed m) (hfit : FitAll m) :
+    (packets m = .error .namePartTooLong ↔ HasLongEntry m) ∧ (¬ HasLongEntry m → ∃ pks, packets m = .ok pks) := by
+  have hok : ¬ HasLongEntry m → ∃ pks, packets m = .ok pks :=
+    fun hno => Zc.Survive.packets_total m (msgSafe_of_mixed m hm hno)
+  refine ⟨⟨fun he => ?_, C01_message_rejected m hm hfit⟩, hok⟩
+  apply Classical.byContradiction
+  intro hno
+  obtain ⟨pks, hp⟩ := hok hno
+  rw [hp] at he
+  cases he
+
+/-- witness that `FitAll` cannot be dropped: a 9000-byte TXT answer (alone 9033 bytes > 8966) in front of an answer
+whose owner name has a 64-byte label; the builder tries the TXT, finds it too large, stops the answer section, has made
+no progress and **returns** one empty datagram — the over-long label is never looked at -/
+def exHidden : Msg :=
+  { flags := 0x8400, id := 0, multicast := true, questions := [],
+    answers := [(⟨[[97], [108]], 16, 1, true, 4500, 0, .txt (List.replicate 9000 1)⟩, 0),
+                (⟨[List.replicate 64 97, [108]], 1, 1, true, 120, 0, .addr [10, 0, 0, 1]⟩, 0)],
+    authorities := [], additionals := [] }
+
+theorem exHidden_mixed : MsgMixed exHidden :=
+  ⟨by decide, by decide, by decide, by decide +kernel, by decide, by decide⟩
+
+theorem exHidden_long : HasLongEntry exHidden := by decide +kernel
+
+theorem exHidden_returns : (packets exHidden).toOption.map (fun pks => pks.map List.length) = some [12] := by decide +kernel
+
+theorem C01_rejected_iff_refuted : ¬ C01_rejected_iff := by
+  intro h
+  have h1 := (h exHidden exHidden_mixed).mpr exHidden_long
+  have h2 := exHidden_returns
+  rw [h1] at h2
+  simp [Except.toOption] at h2
+
+/-- non-vacuity of the rejection theorems: an SRV record whose *target* has a 64-byte label, behind an ordinary
+question and answer (the names table is not empty when the builder reaches it) -/
+def exBadTarget : Msg :=
+  { flags := 0x8400, id := 0, multicast := true, questions := [⟨[[95, 104], [108]], 12, 1, false⟩],
+    answers := [(⟨[[95, 104], [108]], 12, 1, false, 4500, 0, .ptr [[70], [95, 104], [108]]⟩, 0)],
+    authorities := [],
+    additionals := [⟨[[70], [95, 104], [108]], 33, 1, true, 120, 0, .srv 0 0 80 [List.replicate 64 104, [108]]⟩] }
+
+theorem exBadTarget_mixed : MsgMixed exBadTarget :=
+  ⟨by decide, by decide, by decide +kernel, by decide +kernel, by decide +kernel, by decide +kernel⟩
+
+theorem exBadTarget_fit : FitAll exBadTarget :=
+  ⟨by decide +kernel, by decide +kernel, by decide +kernel, by decide +kernel⟩
+
+theorem exBadTarget_long : HasLongEntry exBadTarget := by decide +kernel
+
+example : packets exBadTarget = .error .namePartTooLong :=
+  C01_message_rejected exBadTarget exBadTarget_mixed exBadTarget_fit exBadTarget_long
+
+/-! #### remaining TTL: `now` is not before the record was created
+
+`WFRec` asks that the TTL *as transmitted* (`wireTtl`) fits 32 bits.  For a TTL of 0..2³²−1 that is automatic when
+the record is written with its own TTL (`now = 0`) or with the TTL remaining at a time **not before its creation**
+(`created ≤ now`: what "remaining TTL" means).  A record "from the future" (`now < created`) with a TTL near 2³² has a
+"remaining" TTL above 2³²−1 and `_write_int` raises `struct.error` — outside the quantifier (reading). -/
+
+/-- the reading of "remaining TTL" -/
+def NowNotBeforeCreated (r : ERecord) (now : Ms) : Prop := now = 0 ∨ r.created ≤ now
+
+instance (r : ERecord) (now : Ms) : Decidable (NowNotBeforeCreated r now) := by unfold NowNotBeforeCreated; infer_instance
+
+theorem C01_remaining_ttl_le (r : ERecord) (now : Ms) (h : NowNotBeforeCreated r now) : wireTtl r now ≤ r.ttl := by
+  unfold NowNotBeforeCreated at h
+  unfold wireTtl
+  by_cases h0 : now = 0
+  · simp [h0]
+  · have hc : @LE.le Int _ r.created now := by
+      rcases h with h | h
+      · exact absurd h h0
+      · exact h
+    simp only [h0, if_false]
+    by_cases hneg : r.created + 1000 * (r.ttl : Int) - now < 0
+    · simp [hneg]
+    · simp only [hneg, if_false]
+      have hdiv : (r.created + 1000 * (r.ttl : Int) - now) / 1000 ≤ (r.ttl : Int) :=
+        Int.ediv_le_of_le_mul (by omega) (by omega)
+      omega
+
+/-- the extra conjunct of `WFRec` is implied by the property's quantifier (TTL 0..2³²−1) under that reading -/
+theorem C01_wire_ttl_in_range (r : ERecord) (now : Ms) (h : NowNotBeforeCreated r now) (httl : r.ttl < 4294967296) :
+    wireTtl r now < 4294967296 :=
+  Nat.lt_of_le_of_lt (C01_remaining_ttl_le r now h) httl
+
+/-- outside that reading: TTL 2³²−1, created at 1 000 000 ms, written with `now = 1` → `struct.error` (as the library) -/
+example : (match encRecord true 12 [] ⟨[[97], [108]], 1, 1, true, 4294967295, 1000000, .addr [1, 2, 3, 4]⟩ 1 with
+    | .error e => e.name | .ok _ => "ok") = "struct.error" := by
+  decide +kernel
 
 /-! ### D21 (finding): the builder never checks the total encoded length of a name
 
